@@ -562,3 +562,4 @@ mut("c19-top-bit-never-set", "C19",
     ("src/operations.rs",
      "        *t = rand::thread_rng().next_u64() & num_vars_mask(num_vars);",
      "        *t = (rand::thread_rng().next_u64() >> 1) & num_vars_mask(num_vars);"))
+rev("c12-before-minterm32-fix", "C12", "tree before the fix of D8 (Cube::minterm(32, m) overflows the variable mask)", "f025167")
